@@ -85,6 +85,7 @@ type streamOpts struct {
 	pesLenModes  bool // unbounded (0) PES_packet_length besides exact
 	minPackets   int
 	uniquePacket bool // make every packet of a PID distinguishable (payload never equal to its predecessor's)
+	zeroPayload  bool // noise also includes packets flagged as carrying a payload whose adaptation field fills them entirely (a unit of zero bytes, on PID 0x1ffd): nothing may come of them
 	networkPID   bool // the PAT's programme 0 may name a PID of its own (not 0x10) that carries NIT sections, some before the first PAT; only for relational oracles: whether a demuxer follows network_PID is not fixed by the properties
 	relaxedSI    bool // units on the DVB SI PIDs (not PAT/PMT) may be cut anywhere: pointer_field alone in the first packet, a packet boundary exactly at the end of a non-last section
 }
@@ -405,6 +406,7 @@ func drawStream(t *rapid.T, o streamOpts) *streamModel {
 		}
 	}
 	lastCC := map[uint16]uint8{}
+	var zcc uint8
 	for {
 		var live []uint16
 		for _, pid := range order {
@@ -427,7 +429,14 @@ func drawStream(t *rapid.T, o streamOpts) *streamModel {
 			emit(sp)
 			lastCC[pid] = sp.p.CC
 			if o.noise && gen.Chance(t, 12, "noise") {
-				switch gen.Uniform(t, 3, "noisek") {
+				nk := gen.Uniform(t, 3, "noisek")
+				if o.zeroPayload && gen.Chance(t, 30, "noisezero") {
+					nk = 3
+				}
+				switch nk {
+				case 3:
+					zcc = (zcc + 1) & 0xf
+					emit(&streamPacket{p: &ref.TSPacket{PID: 0x1ffd, PUSI: true, HasAF: true, AF: &ref.AF{Stuffing: 182}, HasPayload: true, CC: zcc}})
 				case 0:
 					emit(&streamPacket{p: ref.NullPacket(byte(rapid.SampledFrom([]int{0xff, 0x00, 0x47}).Draw(t, "nullfill")))})
 				case 1:
